@@ -14,7 +14,7 @@ RULE = ("per class: (a) joint assignments to all CDB fields at once (service act
         "alphabet; the spec encoder turns the assignment into bytes, then unmarshall_cdb(bytes) must equal the assignment, "
         "marshall_cdb(assignment) and marshall_cdb(unmarshall_cdb(bytes)) must equal the bytes, and relative to the baseline only the "
         "deviating fields may change; (b) every CDB built by the constructor for argument tuples with at most k-1 deviations is decoded "
-        "and re-encoded, allocation / transfer lengths 2^24+1 ... 2^32-1 included (buffers stood in for by length-only objects); (c) 13 fresh processes whose first library action is a base-class marshall / build / decode with an operation code of each length group, a refused marshall or a refused construction, followed by the first-ever dictionary-level encode/decode of every class at both baselines; (d) per class, the layout table re-bound with one more field in a free byte (a user adding the CONTROL byte): class-level encode, instance-level build and decode must follow the table in place; (e) per class, a subclass overriding the marshall_cdb / unmarshall_cdb pair: constructor and build_cdb go through the override. Non-trivial = at least one deviation; distinct = distinct (class, mode, assignment).")
+        "and re-encoded, allocation / transfer lengths 2^24+1 ... 2^32-1 included (buffers stood in for by length-only objects); (c) 13 fresh processes whose first library action is a base-class marshall / build / decode with an operation code of each length group, a refused marshall or a refused construction, followed by the first-ever dictionary-level encode/decode of every class at both baselines; (d) per class, the layout table re-bound with one more field in a free byte (a user adding the CONTROL byte): class-level encode, instance-level build and decode must follow the table in place; (e) per class, a subclass overriding the marshall_cdb / unmarshall_cdb pair: constructor and build_cdb go through the override; (f) per class, one existing layout entry moved to a free byte after the class was used (replaced under its key / edited in place): encode and decode follow the table as it stands. Non-trivial = at least one deviation; distinct = distinct (class, mode, assignment).")
 ASSUMPTIONS = [
     "oracle: vf/spec/cdb.py + vf/spec/bits.py",
     "each class is used the way the repository's tests use it: an instance of the class is constructed immediately before its marshall_cdb/unmarshall_cdb are called (isolation between classes is C09's subject)",
@@ -200,6 +200,46 @@ def check_built_wide(name, cls, op):
     return out
 
 
+def check_entry_edit(name):
+    """a user corrects ONE entry of a class's layout after the class has been in use (SBC-4 widened GROUP NUMBER; a field moved):
+    replaced under its key, or its [mask, offset] list edited in place - encode and decode follow the table as it now stands"""
+    cls, inst, op = fresh_instance(name)
+    ln = S.CLASSES[name]["length"]
+    free = [i for i in range(ln) if not (S.covered_mask(name) >> (8 * (ln - 1 - i))) & 0xFF]
+    narrow = [(f, b, msb, w) for (f, b, msb, w) in lib_fields(name) if f != "opcode" and w <= 8 and f in cls._cdb_bits and len(cls._cdb_bits[f]) == 2]
+    if not free or not narrow:
+        return []
+    f, b, msb, w = narrow[-1]
+    byte = free[-1]
+    vals = base_of(name, "zeros")
+    cls.unmarshall_cdb(cls.marshall_cdb(dict(vals)))          # the class has been used
+    vals[f] = (1 << w) - 1
+    want = bytearray(spec_bytes(name, dict(vals, **{f: 0})))
+    want[byte] = (1 << w) - 1
+    out = []
+    table = cls._cdb_bits
+    old_entry = table[f]
+    old_copy = list(old_entry)
+    for how in ("replaced under its key", "edited in place"):
+        try:
+            if how == "replaced under its key":
+                table[f] = [(1 << w) - 1, byte]
+            else:
+                table[f] = old_entry
+                old_entry[0], old_entry[1] = (1 << w) - 1, byte
+            got = bytes(cls.marshall_cdb(dict(vals)))
+            dec = cls.unmarshall_cdb(bytearray(want)).get(f)
+        except Exception as e:   # noqa: BLE001
+            got, dec = "raised %s: %s" % (type(e).__name__, e), None
+        finally:
+            old_entry[0], old_entry[1] = old_copy
+            table[f] = old_entry
+        if got != bytes(want) or dec != (1 << w) - 1:
+            out.append(("entry_edit/%s" % name, "%s: entry %r moved to byte %d (%s) after the class was used: encode gives %s (expected %s), decode gives %r"
+                        % (name, f, byte, how, got.hex() if isinstance(got, bytes) else got, bytes(want).hex(), dec)))
+    return out
+
+
 def check_override(name):
     """a derived command class that overrides the codec pair (a field the [mask, offset] notation cannot express): CDBs the library builds
     for it - constructor, build_cdb - go through the overridden encoder, so its decoder stays their inverse"""
@@ -281,6 +321,8 @@ def run_case(case):
         return check_extension(case[1])
     if case[0] == "override":
         return check_override(case[1])
+    if case[0] == "entry_edit":
+        return check_entry_edit(case[1])
     if case[0] == "built_wide":
         cls, inst, op = fresh_instance(case[1])
         return check_built_wide(case[1], cls, op)
@@ -389,6 +431,15 @@ def run_partition(part, tier, seed):
         for k, what in v:
             acc.violation(k, what, case)
         acc.outcome((name, "built", tuple(sorted(point.items())), tuple(k for k, _ in v)))
+    case = ["entry_edit", name]
+    acc.case(case, nontrivial=True, key=("entry_edit", name))
+    try:
+        v = check_entry_edit(name)
+    except Exception as e:
+        v = [("raises/%s" % name, "%s: entry edit check %s %r" % (name, type(e).__name__, e))]
+    for k, what in v:
+        acc.violation(k, what, case)
+    acc.outcome((name, "entry_edit", tuple(k for k, _ in v)))
     case = ["override", name]
     acc.case(case, nontrivial=True, key=("override", name))
     try:
